@@ -184,7 +184,8 @@ def run_harness(exe, cfg, timeout=900):
     except subprocess.TimeoutExpired as e:
         rc, out, err = -999, (e.stdout or b"").decode(errors="replace") if isinstance(e.stdout, bytes) else (e.stdout or ""), "TIMEOUT"
     r = {"cfg": cfg, "rc": rc, "secs": round(time.time() - t, 1), "res": {}, "mismatch": [], "events": [],
-         "done": None, "tsan": parse_tsan(err), "stderr_tail": err[-1500:], "cmd": " ".join(args)}
+         "done": None, "tsan": parse_tsan(err), "stderr_tail": err[-1500:], "cmd": " ".join(args),
+         "page": 4096, "ctxs": {}}
     for line in out.split("\n"):
         w = line.split(" ")
         if w[0] == "RES" and len(w) > 5:
@@ -195,6 +196,12 @@ def run_harness(exe, cfg, timeout=900):
             r["events"].append((int(w[4]), int(w[5]), int(w[1]), int(w[2]), w[3]))
         elif w[0] == "DONE":
             r["done"] = line
+        elif w[0] == "PAGESIZE":
+            r["page"] = int(w[1])
+        elif w[0] == "CTX" and len(w) >= 6:
+            r["ctxs"][int(w[1])] = {"tid": int(w[2]), "iter": int(w[3]), "tag": w[4], "viol": int(w[5].split("=")[1]), "events": []}
+        elif w[0] == "CA" and len(w) == 7 and int(w[1]) in r["ctxs"]:
+            r["ctxs"][int(w[1])]["events"].append((w[2], w[3], int(w[4]), int(w[5]), int(w[6])))
     return r
 
 
@@ -237,6 +244,7 @@ else:
     ck.cov["corpus_replayed"] = sum(1 for c in cfgs if c[0] == "corpus")
 
 # ------------------------------------------------------------------ evaluate the runs
+PHASES_DEFAULT = ["MIR_init", "...", "MIR_finish"]
 seen_dyn = {}            # (file, object) -> example report
 unexplained = []         # TSan reports the inventory does not explain
 secondary = 0
@@ -358,9 +366,77 @@ for c in crashes:
                  what=f"threaded run did not complete (rc={c['rc']})", signature="C18:harness-crash")
     break
 
+# ------------------------------------------------------------------ 4b: code pages (recording code allocators)
+# invariant: every mem_protect / mem_unmap request issued on behalf of a context covers only pages that
+# context mapped; every announced _MIR_change_code/_MIR_update_code call re-protects exactly the pages
+# that contain a patched byte (Props/C18.lean: change_window_tight, patch_request_confined).  The event
+# sequences recorded by the harness are judged by the Lean monitor (mirdrv_c18 pages) and the verdict
+# is compared with the harness' own ownership monitor.
+pg = {"contexts": 0, "requests": 0, "patch_calls": 0, "boundary_patches": 0, "model_bad": 0, "harness_bad": 0}
+
+
+def ev_text(e, page):
+    k, sub, a, b, bad = e
+    if k == "m":
+        return f"mem_map -> pages {a}..{a + b - 1}"
+    if k == "u":
+        return f"mem_unmap pages {a}..{a + b - 1}" + ("   <-- not all mapped by this context" if bad else "")
+    if k == "w":
+        return f"mem_protect({'W|X' if sub == 'W' else 'R|X'}) pages {a}..{a + b - 1}" + ("   <-- not all mapped by this context" if bad else "")
+    return (f"{'_MIR_change_code' if sub == 'c' else '_MIR_update_code'}(addr=arena+{a:#x} [page {a // page} offset {a % page}], "
+            f"len={b}; last byte at page offset {(a + b - 1) % page})")
+
+
+page_violation_done = False
+try:
+    for r in runs:
+        if not r["ctxs"]:
+            continue
+        ids = list(r["ctxs"])
+        inp = "".join(f"pages {r['page']} {i}\n" + "".join(f"{e[0]} {e[2]} {e[3]}\n" for e in r["ctxs"][i]["events"]) + "endpages\n"
+                      for i in ids)
+        rc, out, err = ck.drv("mirdrv_c18", [], inp)
+        rep_by_id = {}
+        for line in out.split("\n"):
+            w = line.split(" ")
+            if w[0] == "PAGES":
+                rep_by_id[int(w[1])] = dict(x.split("=") for x in w[2:])
+        if len(rep_by_id) != len(ids):
+            raise RuntimeError(f"page monitor answered {len(rep_by_id)} of {len(ids)} contexts: {out[-300:]} {err[-300:]}")
+        for i in ids:
+            c, m = r["ctxs"][i], rep_by_id[i]
+            pg["contexts"] += 1
+            pg["requests"] += int(m["reqs"])
+            pg["patch_calls"] += int(m["patches"])
+            pg["boundary_patches"] += int(m["boundary"])
+            mbad = int(m["bad"]) + int(m["patchbad"])
+            pg["model_bad"] += 1 if mbad else 0
+            pg["harness_bad"] += 1 if c["viol"] else 0
+            if int(m["bad"]) != c["viol"]:
+                ck.broken_ties.append({"kind": "correspondence", "name": "page-ownership monitor: Lean vs harness",
+                                       "first_diff": {"cmd": r["cmd"], "ctx": i, "lean": m, "harness_viol": c["viol"]}})
+            if mbad and not page_violation_done:
+                page_violation_done = True
+                fb = [int(x) for x in (m.get("firstbad") or m.get("firstpatchbad")).split(":")]
+                idx = fb[0]
+                phases = [e[4] for e in sorted(r["events"]) if e[2] == c["tid"] and e[3] == c["iter"]] or PHASES_DEFAULT
+                seq = [ev_text(e, r["page"]) for e in c["events"][max(0, idx - 9):idx + 1]]
+                ck.violation({"stage": "tie", "theorem_or_correspondence": "code-page ownership (MirVerif.C18.patch_request_confined / change_window_tight)",
+                              "input": {"harness": r["cmd"].split(" ")[1:], "harness_cmd": r["cmd"], "context": {"thread": c["tid"], "iteration": c["iter"], "run": c["tag"]},
+                                        "api_call_sequence": phases,
+                                        "code_alloc_events_up_to_violation": seq, "event_index": idx, "page_size": r["page"]},
+                              "model_output": {"monitor": m, "expected": "window = pages containing a patched byte, all mapped by this context"},
+                              "impl_output": seq[-1], "how_to_rerun": r["cmd"] + "   (stdout lines CTX/CA of this context)"},
+                             what=f"context of thread {c['tid']} iteration {c['iter']} issued a code-page protection request outside the pages it "
+                                  f"mapped / wider than the patched bytes: {seq[-1]}", signature="C18:code-page-window")
+except Exception as e:
+    ck.broken_ties.append({"kind": "driver", "name": "mirdrv_c18 pages", "log": repr(e)})
+if runs and exe is not None and not ck.replay and (pg["boundary_patches"] == 0 or pg["requests"] == 0):
+    ck.broken_ties.append({"kind": "coverage", "name": "no boundary patch / protection request was observed", "counts": pg})
+
 # ------------------------------------------------------------------ 5: model correspondence
 PHASES = ["MIR_init", "c2mir_init", "c2mir_compile", "c2mir_finish", "MIR_scan_string", "MIR_output", "MIR_write",
-          "MIR_module2c", "MIR_load_module", "MIR_gen_init", "MIR_link", "run", "MIR_gen_finish", "MIR_finish"]
+          "MIR_module2c", "MIR_load_module", "MIR_gen_init", "MIR_link", "run", "code_patch", "MIR_gen_finish", "MIR_finish"]
 obj_index = {(o["file"], o["object"]): i for i, o in enumerate(objs)}
 api_w = {ph: [tuple(x) for x in v] for ph, v in inv.get("api_writes", {}).items()}
 n_model, n_model_ok, model_diffs = 0, 0, []
@@ -476,7 +552,7 @@ if model_diffs:
     ck.broken_ties.append({"kind": "correspondence", "name": "footprint model vs harness/theorem", "first_diff": model_diffs[0]})
 
 # ------------------------------------------------------------------ evidence
-ck.cov["evaluations"] = n_compared + n_model
+ck.cov["evaluations"] = n_compared + n_model + pg["contexts"]
 ck.cov["distinct_nontrivial"] = len(combos)
 ck.cov["rule"] = ("evaluation = one thread-iteration workload (context init, c2mir compile, scan, output, write, load, link, run, "
                   "finish) executed concurrently with other threads and compared with its sequential run, plus model traces "
@@ -495,7 +571,7 @@ ck.cov.setdefault("distribution", {}).update({
     "inventory_status": {f"{k[0]}:{k[1]}": v for k, v in status.items()},
     "dynamically_confirmed": dyn_confirmed,
     "model_hyp_flags": sorted(hyp_bad_objects),
-    "model_traces": n_model, "model_harness_agree": n_model_ok,
+    "model_traces": n_model, "model_harness_agree": n_model_ok, "code_pages": pg,
     "interfaces_hit": sorted({c[1] for c in combos if c[1] is not None}),
     "kinds_hit": sorted({c[0] for c in combos if c[0] is not None}),
 })
@@ -509,6 +585,8 @@ ck.assumptions += [
     "the inventory classifies uses syntactically from clang's AST; a pointer into a static object that escapes is reported as a write site, aliasing beyond that is only what TSan observes",
     "reviewed address escapes (default_alloc, default_code_alloc, err_struct) are accepted on manual review + absence of TSan reports",
     "libc internals (malloc, stdio) are out of scope; x86-64 target files only",
+    "code pages: ownership is judged per request at the MIR_code_alloc_t boundary with all contexts' mappings adjacent in one arena; "
+    "3 of 4 contexts use the recording allocator, the rest the default one",
     "the model is sequentially consistent interleaving of atomic operations; data races are judged by the property's own wording (conflicting unsynchronised accesses) via TSan",
 ]
 ck.finish()
